@@ -588,16 +588,101 @@ Section Proofs.
       destruct (unmarshal msg (h_ty h0)); reflexivity.
   Qed.
 
+  (** **** OnHandle parameters *)
+  Section OnHandle.
+    Variable eqbV : V -> V -> bool.
+    Hypothesis eqbV_refl : forall v, eqbV v v = true.
+    Notation onhandle_ok := (onhandle_ok gen_name dec zero eqbV).
+
+    Lemma onhandle_ok_app oh msg hs (a b : list pevent) :
+      onhandle_ok oh msg hs (a ++ b) = onhandle_ok oh msg hs a && onhandle_ok oh msg hs b.
+    Proof. unfold Model.onhandle_ok. apply forallb_app. Qed.
+
+    Lemma pre_settle_onhandle_ok oh msg hs hid p m :
+      onhandle_ok oh msg hs (snd (pre_settle (V:=V) hid p m)) = true.
+    Proof.
+      destruct p; unfold pre_settle;
+        [reflexivity | destruct (step m OpAck); reflexivity | destruct (step m OpNack); reflexivity].
+    Qed.
+
+    (** one handle(params) for a registered handler [h] that matches [msg0] and decodes to [v] *)
+    Lemma invoke_onhandle_ok oh (msg0 : wmsg) hs h b v c mc m :
+      In (h, b) hs -> matches msg0 h = true -> unmarshal msg0 (h_ty h) = Some v ->
+      onhandle_ok oh msg0 hs (snd (fst (invoke oh h (name_from msg0) v c mc b m))) = true.
+    Proof.
+      intros Hin Hm Hd.
+      assert (Hex : existsb (fun hb => N.eqb (h_id (fst hb)) (h_id h) && matches msg0 (fst hb)
+                                       && option_eqb eqbV (unmarshal msg0 (h_ty (fst hb))) (Some v)) hs = true).
+      { apply existsb_exists. exists (h, b). split; [assumption|]. simpl.
+        rewrite N.eqb_refl, Hm, Hd. simpl. apply eqbV_refl. }
+      unfold invoke, call_handler.
+      pose proof (pre_settle_onhandle_ok oh msg0 hs (h_id h) (hs_pre b) m) as Hp.
+      destruct (pre_settle (h_id h) (hs_pre b) m) as [m1 e1]. simpl in Hp.
+      destruct oh; simpl; rewrite ?N.eqb_refl, ?Hex; simpl; assumption || reflexivity.
+    Qed.
+
+    Lemma grp_loop_onhandle_ok cfg (msg0 : wmsg) hs : forall hs2 msg handled m,
+      incl hs2 hs -> ctx_inv msg0 msg ->
+      onhandle_ok (pc_onhandle cfg) msg0 hs
+                  (snd (fst (grp_loop cfg (name_from msg0) msg hs2 handled m))) = true.
+    Proof.
+      induction hs2 as [|[h b] hs2 IH]; intros msg handled m Hincl Hinv; simpl; [reflexivity|].
+      assert (Hin : In (h, b) hs) by (apply Hincl; now left).
+      assert (Hincl2 : incl hs2 hs) by (intros x Hx; apply Hincl; now right).
+      destruct (N.eqb (name_from msg0) (hname h)) eqn:En; simpl; [|now apply IH].
+      unfold Model.unmarshal. simpl.
+      destruct (dec (w_payload msg) (h_ty h)) as [v|] eqn:Ed; [|reflexivity].
+      set (c := ctx_with_original (w_ctx msg) (w_obj msg)).
+      assert (Hd0 : unmarshal msg0 (h_ty h) = Some v).
+      { unfold Model.unmarshal. destruct Hinv as (_ & _ & Hp & _). now rewrite <- Hp. }
+      pose proof (invoke_onhandle_ok (pc_onhandle cfg) msg0 hs h b v c c m Hin En Hd0) as Hi.
+      destruct (invoke (pc_onhandle cfg) h (name_from msg0) v c c b m) as [[m1 e] r]. simpl in Hi.
+      destruct r; simpl; try assumption.
+      assert (Hinv2 : ctx_inv msg0 (set_ctx msg c)).
+      { destruct Hinv as (H1 & H2 & H3 & H4). repeat split; assumption. }
+      specialize (IH (set_ctx msg c) true m1 Hincl2 Hinv2).
+      destruct (grp_loop cfg (name_from msg0) (set_ctx msg c) hs2 true m1) as [[m2 e2] o]. simpl in *.
+      now rewrite onhandle_ok_app, Hi, IH.
+    Qed.
+
+    Lemma proc_fn_onhandle_ok cfg msg d m :
+      onhandle_ok (pc_onhandle cfg) msg (d_hs d) (snd (fst (proc_fn cfg msg d m))) = true.
+    Proof.
+      destruct d as [h b|h b|hs]; simpl.
+      - unfold Model.cmd_fn.
+        destruct (N.eqb (name_from msg) (hname h)) eqn:En; simpl; [|reflexivity].
+        unfold matched, Model.unmarshal. simpl.
+        destruct (dec (w_payload msg) (h_ty h)) as [v|] eqn:Ed; [|reflexivity].
+        set (c := ctx_with_original (w_ctx msg) (w_obj msg)).
+        pose proof (invoke_onhandle_ok (pc_onhandle cfg) msg [(h, b)] h b v c c m (or_introl eq_refl) En Ed) as Hi.
+        destruct (invoke (pc_onhandle cfg) h (name_from msg) v c c b m) as [[m1 e] r]. simpl in Hi.
+        destruct r; assumption.
+      - unfold Model.evt_fn.
+        destruct (N.eqb (name_from msg) (hname h)) eqn:En; simpl; [|reflexivity].
+        unfold matched, Model.unmarshal. simpl.
+        destruct (dec (w_payload msg) (h_ty h)) as [v|] eqn:Ed; [|reflexivity].
+        set (c := ctx_with_original (w_ctx msg) (w_obj msg)).
+        pose proof (invoke_onhandle_ok (pc_onhandle cfg) msg [(h, b)] h b v c c m (or_introl eq_refl) En Ed) as Hi.
+        destruct (invoke (pc_onhandle cfg) h (name_from msg) v c c b m) as [[m1 e] r]. simpl in Hi.
+        destruct r; assumption.
+      - unfold Model.grp_fn. apply grp_loop_onhandle_ok; [apply incl_refl|repeat split].
+    Qed.
+  End OnHandle.
+
   (** the model passes the acceptor that judges implementation traces *)
   Lemma c15_monitor_accepts (eqbV : V -> V -> bool) (Hrefl : forall v, eqbV v v = true) cfg msg d :
     let '(m2, e, rtr) := process cfg msg d in
     c15_monitor gen_name dec zero eqbV cfg msg d e rtr (st m2) = true.
   Proof.
     pose proof (process_spec cfg msg d) as H.
-    destruct (process cfg msg d) as [[m2 e] rtr].
+    destruct (process cfg msg d) as [[m2 e] rtr] eqn:Heq.
     destruct H as (Hc & Hs & Hx & H1 & H2 & H3).
+    assert (Hoh : onhandle_ok gen_name dec zero eqbV (pc_onhandle cfg) msg (d_hs d) e = true).
+    { pose proof (proc_fn_onhandle_ok eqbV Hrefl cfg msg d (init CtorNew)) as Ho.
+      unfold Model.process in Heq. destruct (proc_fn cfg msg d (init CtorNew)) as [[m1 e1] o1].
+      pose proof (routed_spec m1 e1 o1) as Hr. rewrite Heq in Hr. destruct Hr as (-> & _). exact Ho. }
     unfold c15_monitor. fold (d_matching msg d).
-    rewrite Hc, Hs, Hx, H1, H2, H3. simpl.
+    rewrite Hc, Hs, Hx, Hoh, H1, H2, H3. simpl.
     assert (Hl : forall l : list (N * V), list_eqb (call_eqb eqbV) l l = true).
     { induction l as [|[n v] l IH]; simpl; [reflexivity|]. unfold call_eqb at 1. simpl.
       now rewrite N.eqb_refl, Hrefl, IH. }
